@@ -7,8 +7,10 @@ class ConstantOperation(AbstractDenseTimeOnlineOperation):
         self.is_first_sample = True
 
     def update(self, *args, **kargs):
+        # the constant signal extends to infinity: it is handed over once, with the first update
         if self.is_first_sample:
             out = [[0, self.val], [float("inf"), self.val]]
+            self.is_first_sample = False
         else:
             out = list()
         return out
